@@ -294,6 +294,8 @@ func OnceDo(site string, o *sync.Once, f func()) {
 			st.running = true
 			rt.mu.Unlock()
 			defer func() {
+				// keep the real Once in step, so that a later pass-through call cannot run f again
+				o.Do(func() {})
 				rt.mu.Lock()
 				st.done = true
 				for _, w := range st.waiters {
